@@ -1,2 +1,5 @@
 # table of claimed checks; executed by gen_manifest.py
 e1("C01", "CrossHair/z3 bounded symbolic execution of HsmEventProcessor.dispatch/trans_ over a symbolic chart family, exact action-log oracle")
+e1("C02", "CrossHair/z3 bounded symbolic execution of dispatch's outward search over symbolic per-state reaction vectors")
+e1("C03", "CrossHair/z3 bounded symbolic execution of start_at/init over symbolic start depth and initial-transition hops")
+e1("C24", "CrossHair/z3 bounded symbolic execution of start_at/dispatch on charts with one symbolic malformation, call-count hang detection")
